@@ -44,16 +44,27 @@ def loc(t: Term) -> Term:
             return ("SPLITEXT", loc(args[0]))
     if tag == "idx" and t[2][0] == "const":
         b = loc(t[1])
+        if b[0] == "attr" and b[2] == "parts" and t[2][1] == -1:
+            return ("attr", b[1], "name")
         if b[0] == "SPLIT" and t[2][1] == 0:
             return ("PARENT", b[1])
         if b[0] == "SPLITEXT" and t[2][1] == 0:
             return ("NOSUF", b[1])
         if b[0] == "attr" and b[2] == "parents" and t[2][1] == 0:
             return ("PARENT", loc(b[1]))
+    if tag == "slice" and is_const(t[4], None) and is_const(t[2], None) and is_const(t[3], -1):
+        b = loc(t[1])
+        if b[0] == "attr" and b[2] == "parts":
+            return ("attr", ("PARENT", b[1]), "parts")
     if tag == "attr":
         if t[2] == "parent":
             return ("PARENT", loc(t[1]))
-        return ("attr", loc(t[1]), t[2]) if t[2] in ("name", "stem", "suffix", "parts", "parents") else t
+        if t[2] in ("name", "stem", "suffix", "parts", "parents"):
+            b = loc(t[1])
+            if b[0] == "attr" and b[2] == "name" and t[2] in ("stem", "suffix", "name"):
+                return ("attr", b[1], t[2])  # Path(p.name).stem == p.stem
+            return ("attr", b, t[2])
+        return t
     if tag == "mcall":
         recv, name, args = t[1], t[2], t[3]
         if name == "relative_to" and len(args) == 1:
